@@ -100,3 +100,9 @@ package diff
 //@   requires da != nil
 //@   modifies *
 //@   ensures [C12,C13] resultOrError: res1 == nil ==> usableDiff(res0)
+
+// the diff map key of a connection is the printed identity of both ends - kind included, so two workloads that differ only
+// in kind are never matched with each other (C04: "removed" / "added", not "changed")
+//@ func getKeyFromP2PConn
+//@   requires p2pOK(c) && p2pSrc(c) != nil && p2pDst(c) != nil
+//@   ensures [C04] key: res == (clStr(p2pSrc(c)) + ";") + clStr(p2pDst(c))
